@@ -35,8 +35,8 @@ META["C02"] = dict(
 META["C18"] = dict(
     level="other",
     technique="contract-based deductive verification: progress.py (class invariant 0<=_i<=_total, notification range) by VC generation from the real AST + z3; step accounting of every `with Progress(...)` block of the analysis entry points by an abstract execution of the real AST with callee step contracts, loop summaries checked as inductive invariants and z3 over the reals; option cross product as labelled bounded stand-in",
-    level_text="Proved for all states: every Progress method preserves 0<=_i<=_total and the global _RECENT_PROGRESS invariant, increment/set raise only when the step passes the total, and every notification forwarded to callbacks has 0<=progress<=1 and a message keyword. Proved for all inputs and all trip counts: in fit_circuit, calculate_drt_{bht,lm,mrq_fit,tr_nnls,tr_rbf} and their helpers, and in the Kramers-Kronig search evaluate_log_F_ext (through step contracts on _perform_tests, _use_cnls, _use_matrix_inversion, _use_least_squares_fitting, _log_F_ext_residual, both _evaluate_log_F_ext_* functions, and on TR-RBF's sampler callback) the hand-written total of each Progress block is >= 1 and covers every increment on every path, including the early exits by return/raise and the steps taken after the block. Z-HIT step accounting: the real num_steps arithmetic of perform_zhit against the increments of its five real stage functions, executed with the real Progress class for every {smoothing, interpolation, window: auto|named} x {weights: None|array} combination and window-table sizes 1, 2, 14 (both sides affine in the table size). Completion of every option combination (no shape/index error inside numpy/scipy code) is a total-correctness claim through numerical libraries and is only explored (bounded) over the option cross product.",
-    level_note="real arithmetic for progress fractions and step counts; ASSUMED: lmfit.minimize(max_nfev=N) evaluates its objective at most N+2 times, iterators yield one item per element, functions that are not handed the Progress object do not reach it; set_message modelled in the only form the library uses (message[, force]); run-to-completion of the numerical entry points is bounded, never proved",
+    level_text="Proved for all states: every Progress method preserves 0<=_i<=_total and the global _RECENT_PROGRESS invariant, increment/set raise only when the step passes the total, and every notification forwarded to callbacks has 0<=progress<=1 and a message keyword. Proved for all inputs and all trip counts: in fit_circuit, calculate_drt_{bht,lm,mrq_fit,tr_nnls,tr_rbf} and their helpers, and in the Kramers-Kronig search evaluate_log_F_ext (through step contracts on _perform_tests, _use_cnls, _use_matrix_inversion, _use_least_squares_fitting, _log_F_ext_residual, both _evaluate_log_F_ext_* functions, and on TR-RBF's sampler callback) the hand-written total of each Progress block is >= 1 and covers every increment on every path, including the early exits by return/raise and the steps taken after the block. Z-HIT step accounting: proved for every size of the window table by the same engine (the step counts of the five stage functions and the sizes of the tables they return are inferred from their bodies, incl. the dict of dicts of interpolation options), and cross-checked by executing the real stage functions with the real Progress class for every {smoothing, interpolation, window: auto|named} x {weights: None|array} combination and window-table sizes 1, 2, 14. Completion of every option combination (no shape/index error inside numpy/scipy code) is a total-correctness claim through numerical libraries and is only explored (bounded) over the option cross product.",
+    level_note="real arithmetic for progress fractions and step counts; ASSUMED: lmfit.minimize(max_nfev=N) evaluates its objective at most N+2 times, iterators yield one item per element, functions that are not handed the Progress object do not reach it, the table of window functions is non-empty once initialised, dict keys stored in a loop are distinct (an upper bound otherwise); set_message modelled in the only form the library uses (message[, force]); run-to-completion of the numerical entry points is bounded, never proved",
     explanation="Proof part: obligations from progress.py (_update_every_N_percent, Progress.{increment,set,set_message,__enter__,__exit__}, register); the step-accounting targets of contracts/steps.py (functions discovered on every run by walking the analysis modules for Progress blocks; 9 callee step contracts, 2 preconditions, 1 loop invariant); the Z-HIT step-accounting target (48 option/table combinations); calculate_drt_tr_nnls run on terms with the real Progress class. Bounded part: option cross product per entry point with a recording progress callback.",
     trusted_base=["callbacks are opaque; _update forwards its keyword arguments unchanged", "lmfit.minimize: number of objective evaluations <= max_nfev + 2 (assumed contract of a dependency)", "multiprocessing.Pool.imap / imap_unordered / map yield one result per input item"],
     assumptions=COMMON_ASSUME,
